@@ -109,9 +109,15 @@ func (u *Unit) argShape(e ast.Expr, at ast.Node, depth int) string {
 			name = f.Name
 		case *ast.SelectorExpr:
 			name = f.Sel.Name
-			if depth < 3 {
-				if _, isPkg := u.Info.Uses[identOfOrNil(f.X)].(*types.PkgName); !isPkg {
-					base := u.argShape(f.X, at, depth+2)
+			if _, isPkg := u.Info.Uses[identOfOrNil(f.X)].(*types.PkgName); !isPkg {
+				// method chains are bounded by syntax: walking down the receiver chain costs no depth; only
+				// following a local variable to its definition does
+				nd := depth
+				if _, isIdent := ast.Unparen(f.X).(*ast.Ident); isIdent {
+					nd = depth + 2
+				}
+				if nd < 5 {
+					base := u.argShape(f.X, at, nd)
 					if strings.HasPrefix(base, ".") || strings.HasSuffix(base, ")") || strings.HasPrefix(base, "$") {
 						name = base + "." + name
 					}
